@@ -145,6 +145,17 @@ def canon_model(reply):
         return 'bad-reply ' + reply[:200]
 
 
+def disagree(creal, reply):
+    """None when the model's `c03 parse` reply matches the canonical real outcome, else a description; a model that ran
+    out of fuel (`err Timeout`) never matches"""
+    cm = canon_model(reply)
+    if cm == 'err Timeout':
+        return 'model ran out of fuel (err Timeout); real=%s' % creal[:200]
+    if cm != creal:
+        return 'real=%s model=%s' % (creal[:200], cm[:200])
+    return None
+
+
 def drv_run(ctx, reqs):
     """ctx.driver.run, patient while somebody else's `lake build` relinks the driver binary"""
     for _ in range(60):
@@ -491,9 +502,9 @@ def check_docs(ctx, items, state):
         return
     for (doc, legacy, c1, case), rep in zip(recs, replies):
         ctx.traces += 1
-        cm = canon_model(rep)
-        if cm != c1:
-            ctx.diverge('text parser: real=%s model=%s on %r (legacy=%s)' % (c1[:200], cm[:200], doc[:200], legacy), case)
+        why = disagree(c1, rep)
+        if why:
+            ctx.diverge('text parser: %s on %r (legacy=%s)' % (why, doc[:200], legacy), case)
 
 
 def shrink_doc(doc, legacy, sig):
@@ -515,9 +526,9 @@ def run_text(ctx):
     rng = ctx.rng
     t0 = time.time()
     quick = ctx.tier == 'quick'
-    n_base = 40 if quick else 400
-    n_noise = 5000 if quick else 60000
-    n_double = 4000 if quick else 60000
+    n_base = 60 if quick else 500
+    n_noise = 8000 if quick else 80000
+    n_double = 6000 if quick else 80000
     n_replace = 1 if quick else 3
     budget = 28 if quick else 400
     if ctx.broken:
@@ -566,7 +577,8 @@ def run_text(ctx):
         doc = bytes.fromhex(case['doc']).decode('utf-8')
         if sig.count(':') >= 3 and not sig.endswith('Timeout'):
             doc = shrink_doc(doc, case['legacy'], sig)
-        wit[sig] = {'doc': doc if len(doc) < 80 else doc[:40] + '…(%d chars)' % len(doc), 'legacy': case['legacy'],
+        doc = doc.replace(str(OVF), '<(2**1024-2**970)*1000 = %s…, %d digits>' % (str(OVF)[:8], len(str(OVF))))
+        wit[sig] = {'doc': doc if len(doc) < 120 else doc[:60] + '…(%d chars)' % len(doc), 'legacy': case['legacy'],
                     'count': state['sigs'][sig]}
     ctx.extra['c14text_signatures'] = wit
     print('C14Text signatures: %s' % {k: v['count'] for k, v in wit.items()})
